@@ -251,6 +251,16 @@ def oneshot(rng, T, roots, fail=(), gated=True, tag='os', cap=None, hang_s=None,
                 bad('C08', '%s executed %d times in one one-shot run' % (t, n))
             if t not in clo:
                 bad('C08', '%s is outside the closure of the requested targets but was executed' % t)
+        # ... "executed or skipped exactly once": a second pass over a target that declares inputs is found Not Modified and
+        # does not run the script again — zinoma's own log tells (one `Building` or `Build skipped` line per pass)
+        log1 = run.stderr()
+        for t in T:
+            if T[t]['kind'] != 'build':
+                continue
+            passes = log1.count(' %s - Building\n' % t) + log1.count(' %s - Build skipped' % t)
+            if passes > 1:
+                bad('C08', '%s was gone through %d times in one one-shot run (zinoma log: %d x Building, %d x Build skipped)'
+                    % (t, passes, log1.count(' %s - Building\n' % t), log1.count(' %s - Build skipped' % t)))
         for t, pth in planted.items():
             try:
                 okp = open(pth, 'rb').read() == b'planted-' + t.encode()
@@ -387,7 +397,7 @@ def oneshot(rng, T, roots, fail=(), gated=True, tag='os', cap=None, hang_s=None,
             judge_leftover()
         obs = {'outcome': outcome, 'exit_code': run.exit_code, 'trace': tr, 'roots': list(roots), 'fail': {t: fail[t] for t in sorted(fail)},
                'dependencies_declared_through_X.output': implied,
-               'targets': T, 'gated': gated, 'stderr_tail': err[-600:], 'keepalive_expected': keepalive,
+               'targets': T, 'gated': gated, 'with_inputs': with_inputs, 'stderr_tail': err[-600:], 'keepalive_expected': keepalive,
                'exit_latency_after_signal': (run.exit_time - t_sig) if (t_sig and run.exit_time) else None,
                'second_run': second, 'pre_args': list(pre_args)}
         return obs, V
